@@ -416,13 +416,14 @@ class Impl:
         self.g(op["id"]).changeDuration(op["name"], self.v(op["dur"]), op.get("all", False))
 
     def op_bp_setSegMarker(self, op):
-        self.g(op["id"]).setSegmentMarker(op["name"], tuple(self.num(x) for x in op["specs"]), op["mid"])
+        specs = tuple(self.num(x) for x in op["specs"])
+        self.g(op["id"]).setSegmentMarker(op["name"], list(specs) if op.get("_list") else specs, op["mid"])
 
     def op_bp_removeSegMarker(self, op):
         self.g(op["id"]).removeSegmentMarker(op["name"], op["mid"])
 
     def op_bp_setMarker(self, op):
-        lst = [tuple(self.num(x) for x in m) for m in op["list"]]
+        lst = [(list if op.get("_list") else tuple)(self.num(x) for x in m) for m in op["list"]]
         if op["which"] == 1:
             self.g(op["id"]).marker1 = lst
         else:
@@ -431,7 +432,7 @@ class Impl:
     def op_bp_appendMarker(self, op):
         # mutation through the public attribute itself: bp.marker1.append((t, dur))
         lst = self.g(op["id"]).marker1 if op["which"] == 1 else self.g(op["id"]).marker2
-        lst.append(tuple(self.num(x) for x in op["mark"]))
+        lst.append((list if op.get("_list") else tuple)(self.num(x) for x in op["mark"]))
 
     def op_bp_setSR(self, op):
         self.g(op["id"]).setSR(self.v(op["SR"]))
@@ -523,11 +524,16 @@ class Impl:
     def op_sq_new(self, op):
         self.pool[op["id"]] = Sequence()
 
+    @staticmethod
+    def _pos(op):
+        """the position as the caller's own code may produce it (a loop over np.arange gives numpy integers)"""
+        return np.int64(op["pos"]) if op.get("_pos_as") == "npint" else op["pos"]
+
     def op_sq_addElement(self, op):
-        self.g(op["id"]).addElement(op["pos"], self.g(op["el"]))
+        self.g(op["id"]).addElement(self._pos(op), self.g(op["el"]))
 
     def op_sq_addSub(self, op):
-        self.g(op["id"]).addSubSequence(op["pos"], self.g(op["sub"]))
+        self.g(op["id"]).addSubSequence(self._pos(op), self.g(op["sub"]))
 
     def op_sq_setSR(self, op):
         self.g(op["id"]).setSR(self.v(op["v"]))
